@@ -42,7 +42,7 @@ def transform_circuit(circuit: Circuit, w: float, w_resolution: float = 1e-3) ->
 def transform(circuit: Circuit, w: list[float] = [0], w_resolution: float = 1e-3) -> list[Network]:
     return [transform_circuit(circuit, w_, w_resolution) for w_ in w]
 
-def frequency_components(circuit: Circuit, w_max: float) -> list[float]:
+def frequency_components(circuit: Circuit, w_max: float, w_resolution: float = 1e-3) -> list[float]:
     def frequencies(component: Component) -> list[float]:
         try:
             w = float(component.value['w'])
@@ -52,4 +52,8 @@ def frequency_components(circuit: Circuit, w_max: float) -> list[float]:
             n_max = np.floor(w_max/w)
             return [w*n for n in np.arange(n_max+1)]
         return [w]
-    return sorted(list(set([w for c in circuit.components for w in frequencies(c)])))
+    distinct_frequencies : list[float] = []
+    for w in sorted([w for c in circuit.components for w in frequencies(c)]):
+        if len(distinct_frequencies) == 0 or w - distinct_frequencies[-1] > w_resolution:
+            distinct_frequencies.append(w)
+    return distinct_frequencies
